@@ -182,7 +182,14 @@ func (h H) replyAfterPersist(rule string) {
 			resArg := fi.Sym(cc.Common().Args[2]).String()
 			if !core.Dominates(reqCalls[0].(ssa.Instruction), cc.(ssa.Instruction)) {
 				// must be an identity reply: constant result
-				okc := resArg == h.constStr("raft:identityMismatch") || resArg == h.constStr("raft:success")
+				// (every value the result can take: the two constants, chosen directly or through a local)
+				okc := true
+				for _, lf := range h.leavesAt(cc.Common().Args[2], cc.(ssa.Instruction), 0) {
+					v := fi.Sym(lf.V).String()
+					if v != h.constStr("raft:identityMismatch") && v != h.constStr("raft:success") {
+						okc = false
+					}
+				}
 				recv := fi.Sym(cc.Common().Args[0]).String()
 				h.C.Check(rule, fmt.Sprintf("(*Raft).replyRPC createResp#%d", k+1), okc && recv == h.constStr("raft:rpcIdentity"), h.pos(cc), "a reply is created before onRequest returned and is not an identity reply")
 				continue
